@@ -319,4 +319,14 @@ def ref_frame_equals(a, b, compare_name, compare_dtype, compare_class, skipna):
     return True
 
 
-REFS = dict(ref_frame_equals=ref_frame_equals, ref_frame_assign_series=ref_frame_assign_series, ref_dtype_per_depth=ref_dtype_per_depth, ref_ih_view=ref_ih_view, ref_ih_coherent=ref_ih_coherent, ref_series_assign=ref_series_assign, ref_has_missing=ref_has_missing, ref_index_equals=ref_index_equals, ref_series_equals=ref_series_equals, ref_set_fold=ref_set_fold, labels_of_array=labels_of_array, ref_map_slice_args=ref_map_slice_args, ref_windows=ref_windows, observed_windows=observed_windows, windows_agree=windows_agree, ref_tb_equals=ref_tb_equals, ref_slices_from_targets=ref_slices_from_targets)
+def ref_sort_order_by_key(index, ascending, key, result):
+    """the permutation orders the rows of the key function's result lexicographically (depth 0 first), stably; descending is its exact reverse"""
+    cfs = key(index)
+    rows = [tuple(r) for r in cfs.values.tolist()] if getattr(cfs, 'depth', 1) > 1 else [(v,) for v in cfs.values.tolist()]
+    want = sorted(range(len(rows)), key=lambda i: rows[i])
+    if not ascending:
+        want = want[::-1]
+    return list(getattr(result, 'a', result).tolist()) == want
+
+
+REFS = dict(ref_sort_order_by_key=ref_sort_order_by_key, ref_frame_equals=ref_frame_equals, ref_frame_assign_series=ref_frame_assign_series, ref_dtype_per_depth=ref_dtype_per_depth, ref_ih_view=ref_ih_view, ref_ih_coherent=ref_ih_coherent, ref_series_assign=ref_series_assign, ref_has_missing=ref_has_missing, ref_index_equals=ref_index_equals, ref_series_equals=ref_series_equals, ref_set_fold=ref_set_fold, labels_of_array=labels_of_array, ref_map_slice_args=ref_map_slice_args, ref_windows=ref_windows, observed_windows=observed_windows, windows_agree=windows_agree, ref_tb_equals=ref_tb_equals, ref_slices_from_targets=ref_slices_from_targets)
